@@ -3,7 +3,8 @@
    OQ/Generated/TranslatedC03.lean): one Lean definition per method and per KIND of its polymorphic argument (number / term / sum / the
    union), objects as values (`PTerm R` = the attributes `__init__` assigns, `PSum R` = `terms`), every `raise` as `Except.error`,
    the module constants OPERATOR_MAP / COEFF_MAP / ALLOWED_OPERATORS with their CURRENT values.
-   Externals (record `Ext R`): `np.isclose`, `np.allclose`, true division of numbers, the iteration order of a `set` of ints.
+   Externals (record `Ext R`): `np.isclose`, `np.allclose`, true division of numbers, `==` of two numbers, the iteration order of a
+   `set` of ints.
    The theorems below state, for ALL model terms / sums / coefficients over any commutative ring, that the regenerated definition run on
    the object state of a model value (`ofTerm`, `ofSum`: same dict order, letters as strs) never raises and returns the object state of
    what the hand-written model `OQ/Model/C03.lean` computes – with the model's parameters read off the externals
@@ -34,7 +35,7 @@ theorem translated_term_init_eq (k : Scal R) (x : TranslatedPauli.Ext R) (ops : 
     exact this
 
 /-- `__init__` drops "I" entries and rejects nothing else on ℕ keys: `PauliTerm({0: "I"}, c)` is the constant term. -/
-example : TranslatedPauli.term_init (R := Int) ⟨0, 0, 0, 0, id⟩ ⟨fun _ _ => false, fun _ _ => false, fun _ _ => none, id⟩
+example : TranslatedPauli.term_init (R := Int) ⟨0, 0, 0, 0, id⟩ ⟨fun _ _ => false, fun _ _ => false, fun _ _ => none, fun a b => a == b, id⟩
     [(0, none), (2, some P.X)] (some 5) = .ok ⟨[(2, some P.X)], 5⟩ := rfl
 
 /-- TRANSLATION TIE `PauliTerm("I0", c)` (the str literal constant-folded through the CURRENT parser) and `PauliTerm.identity()`:
@@ -86,9 +87,9 @@ theorem translated_multiply_by_operator_eq (k : Scal R) (x : TranslatedPauli.Ext
 
 /-- the "I" letter: on an unused qubit `_multiply_by_operator("I", i)` returns the term itself (`__init__` drops the entry), on a used
     one it raises ValueError unless the stored letter is... never: a stored letter is never "I" -/
-example : TranslatedPauli.term_multiply_by_operator (R := Int) ⟨0, 0, 0, 0, id⟩ ⟨fun _ _ => false, fun _ _ => false, fun _ _ => none, id⟩
+example : TranslatedPauli.term_multiply_by_operator (R := Int) ⟨0, 0, 0, 0, id⟩ ⟨fun _ _ => false, fun _ _ => false, fun _ _ => none, fun a b => a == b, id⟩
     ⟨[(1, some P.Z)], 3⟩ none 1 = .error .value := rfl
-example : TranslatedPauli.term_multiply_by_operator (R := Int) ⟨0, 0, 0, 0, id⟩ ⟨fun _ _ => false, fun _ _ => false, fun _ _ => none, id⟩
+example : TranslatedPauli.term_multiply_by_operator (R := Int) ⟨0, 0, 0, 0, id⟩ ⟨fun _ _ => false, fun _ _ => false, fun _ _ => none, fun a b => a == b, id⟩
     ⟨[(1, some P.Z)], 3⟩ (some P.Z) 1 = .ok ⟨[], 3⟩ := rfl
 
 /-- the loop of `PauliTerm.__mul__` never raises and is the model's fold -/
@@ -143,12 +144,15 @@ theorem translated_term_mul_term_eq (k : Scal R) (x : TranslatedPauli.Ext R) (t 
   exact term_copy_some k x _ _ h2
 
 /-- TRANSLATION TIE `PauliTerm.__mul__(number)`, `__rmul__`, `__truediv__` = the model's `scaleTerm` (`1.0 / other` through the
-    external division: ZeroDivisionError exactly when it is undefined). -/
+    external division: ZeroDivisionError exactly when it is undefined).  The `__truediv__` clause assumes `ZeroDivLaw x`
+    (Lemmas/C03_TranslatedPauli.lean: what `==` calls equal to 0 has no quotient `1.0 / c`): the zero guard
+    `if isinstance(other, Number) and other == 0: raise ZeroDivisionError` of the repaired source then raises nothing new; the same
+    statement is proved of the source without the guard (the hypothesis is unused there). -/
 theorem translated_term_mul_num_eq (k : Scal R) (x : TranslatedPauli.Ext R) (t : Term R) (c : R) (wt : OpsWF t.ops) :
     TranslatedPauli.term_mul_num k x (ofTerm t) c = .ok (ofTerm (scaleTerm t c)) ∧
     TranslatedPauli.term_rmul_num k x (ofTerm t) c = .ok (ofTerm (scaleTerm t c)) ∧
-    TranslatedPauli.term_truediv_num k x (ofTerm t) c =
-      (match recipOf x c with | some r => .ok (ofTerm (scaleTerm t r)) | none => .error .zeroDiv) := by
+    (ZeroDivLaw x → TranslatedPauli.term_truediv_num k x (ofTerm t) c =
+      (match recipOf x c with | some r => .ok (ofTerm (scaleTerm t r)) | none => .error .zeroDiv)) := by
   have h1 : ∀ c, TranslatedPauli.term_mul_num k x (ofTerm t) c = .ok (ofTerm (scaleTerm t c)) := by
     intro c
     unfold TranslatedPauli.term_mul_num
@@ -156,12 +160,22 @@ theorem translated_term_mul_num_eq (k : Scal R) (x : TranslatedPauli.Ext R) (t :
   refine ⟨h1 c, ?_, ?_⟩
   · unfold TranslatedPauli.term_rmul_num
     rw [h1]; rfl
-  · unfold TranslatedPauli.term_truediv_num recipOf
-    cases x.truediv 1 c with
-    | none => rfl
-    | some r =>
-      simp only [ofOption, bind_ok]
-      rw [h1]; rfl
+  · intro hz
+    -- the quotient part (all of the unguarded source, the `else` branch of the guarded one)
+    have hq : Except.bind (OQ.Py.ofOption OQ.Py.Exc4.zeroDiv (x.truediv (1 : R) c)) (fun (r : R) =>
+          Except.bind (TranslatedPauli.term_mul_num k x (ofTerm t) r) (fun (u : TranslatedPauli.PTerm R) => Except.ok u)) =
+        (match x.truediv 1 c with | some r => .ok (ofTerm (scaleTerm t r)) | none => .error .zeroDiv) := by
+      cases x.truediv 1 c with
+      | none => rfl
+      | some r =>
+        simp only [ofOption, bind_ok]
+        rw [h1]; rfl
+    unfold TranslatedPauli.term_truediv_num recipOf
+    first
+      | exact hq
+      | (cases hg : x.num_eq c (0 : R) with
+         | false => simpa only [hg, Bool.and_false, Bool.false_eq_true, if_false] using hq
+         | true => simp only [hg, Bool.and_true, if_true, hz c hg])
 
 /-- the model's term product with the iteration order the translated code uses -/
 def mulTermX (k : Scal R) (x : TranslatedPauli.Ext R) (t u : Term R) : Term R := mulTermOrd k (x.set_iter (keys u.ops)) t u
@@ -303,7 +317,7 @@ theorem translated_simplify_eq (k : Scal R) (x : TranslatedPauli.Ext R) (s : PSu
   rfl
 
 /-- non-vacuity: `2·Z0 + 3·Z0 + 0·X1` simplifies to `5·Z0` (isclose := equality with the second argument on ℤ) -/
-example : TranslatedPauli.sum_simplify (R := Int) ⟨0, 0, 0, 0, id⟩ ⟨fun a b => a == b, fun a b => a == b, fun _ _ => none, id⟩
+example : TranslatedPauli.sum_simplify (R := Int) ⟨0, 0, 0, 0, id⟩ ⟨fun a b => a == b, fun a b => a == b, fun _ _ => none, fun a b => a == b, id⟩
     [⟨[(0, some P.Z)], 2⟩, ⟨[(0, some P.Z)], 3⟩, ⟨[(1, some P.X)], 0⟩] = .ok [⟨[(0, some P.Z)], 5⟩] := rfl
 
 theorem mapE_map {α β γ : Type} (f : β → Except Exc4 γ) (h : α → β) (l : List α) : mapE f (l.map h) = mapE (fun a => f (h a)) l := by
@@ -706,14 +720,15 @@ theorem translated_sum_add_eq (k : Scal R) (x : TranslatedPauli.Ext R) (s : PSum
 
 /-- TRANSLATION TIE `PauliSum.__mul__(PauliTerm)` / `__mul__(number)` (`other_terms = [PauliTerm.identity() * other]`),
     `PauliTerm.__mul__(PauliSum)` (`(PauliSum([self]) * other).simplify()`) and `PauliSum.__truediv__(number)`: the model's `mulV`
-    branches with the translated code's iteration order. -/
+    branches with the translated code's iteration order.  The `__truediv__` clause assumes `ZeroDivLaw x` as in
+    `translated_term_mul_num_eq` (zero guard of the repaired source). -/
 theorem translated_sum_mul_other_eq (k : Scal R) (x : TranslatedPauli.Ext R) (s : PSum R) (t : Term R) (c : R) (hs : SumWF s)
     (wt : OpsWF t.ops) :
     TranslatedPauli.sum_mul_term k x (ofSum s) (ofTerm t) = .ok (ofSum (mulSX k x s [mulTermX k x identityTerm t])) ∧
     TranslatedPauli.sum_mul_num k x (ofSum s) c = .ok (ofSum (mulSX k x s [scaleTerm identityTerm c])) ∧
     TranslatedPauli.term_mul_sum k x (ofTerm t) (ofSum s) = .ok (ofSum (simplify (neglOf x) (mulSX k x [t] s))) ∧
-    TranslatedPauli.sum_truediv_num k x (ofSum s) c =
-      (match recipOf x c with | some r => .ok (ofSum (mulSX k x s [scaleTerm identityTerm r])) | none => .error .zeroDiv) := by
+    (ZeroDivLaw x → TranslatedPauli.sum_truediv_num k x (ofSum s) c =
+      (match recipOf x c with | some r => .ok (ofSum (mulSX k x s [scaleTerm identityTerm r])) | none => .error .zeroDiv)) := by
   have hid := (translated_term_init_lit_I0_eq k x (1 : R)).2
   have hnum : ∀ c : R, TranslatedPauli.sum_mul_num k x (ofSum s) c = .ok (ofSum (mulSX k x s [scaleTerm identityTerm c])) := by
     intro c
@@ -741,11 +756,20 @@ theorem translated_sum_mul_other_eq (k : Scal R) (x : TranslatedPauli.Ext R) (s 
     rw [this]
     simp only [bind_ok]
     exact translated_simplify_eq k x (mulSX k x [t] s) (mulSX_wf k x [t] s w1)
-  · unfold TranslatedPauli.sum_truediv_num recipOf
-    cases x.truediv 1 c with
-    | none => rfl
-    | some r =>
-      simp only [ofOption, bind_ok]
-      exact hnum r
+  · intro hz
+    have hq : Except.bind (OQ.Py.ofOption OQ.Py.Exc4.zeroDiv (x.truediv (1 : R) c)) (fun (r : R) =>
+          TranslatedPauli.sum_mul_num k x (ofSum s) r) =
+        (match x.truediv 1 c with | some r => .ok (ofSum (mulSX k x s [scaleTerm identityTerm r])) | none => .error .zeroDiv) := by
+      cases x.truediv 1 c with
+      | none => rfl
+      | some r =>
+        simp only [ofOption, bind_ok]
+        exact hnum r
+    unfold TranslatedPauli.sum_truediv_num recipOf
+    first
+      | exact hq
+      | (cases hg : x.num_eq c (0 : R) with
+         | false => simpa only [hg, Bool.and_false, Bool.false_eq_true, if_false] using hq
+         | true => simp only [hg, Bool.and_true, if_true, hz c hg])
 
 end OQ.C03
